@@ -430,7 +430,105 @@ fn token_text(rng: &mut Rng, max_len: usize, extra: &[char]) -> String {
     s
 }
 
+fn kind_char(k: u32) -> &'static str {
+    match k {
+        0 => "a", 1 => "b", 2 => "c", 3 => "d", 4 => ",", 5 => ";", 6 => "(", 7 => ")", 8 => "[", 9 => "]",
+        10 => "{", 11 => "}", 12 => " ", 13 => "aa", 14 => "#", _ => "é",
+    }
+}
+
+/// A token string derived from the grammar (mostly one it accepts): the texts
+/// the structured stream of every grammar-level family starts from.
+pub fn derive(g: &G, rng: &mut Rng, out: &mut Vec<&'static str>, depth: usize) {
+    use G::*;
+    if depth > 12 { return; }
+    let d = depth + 1;
+    let pick = |rng: &mut Rng, ks: &Vec<u32>| -> &'static str { if ks.is_empty() { "a" } else { kind_char(ks[rng.below(ks.len())]) } };
+    match g {
+        Empty | EndOfText | Probe(_) => {}
+        One(k) => out.push(kind_char(*k)),
+        Any(ks) | AnyIndex(ks) => out.push(pick(rng, ks)),
+        Seq(ks) => for k in ks { out.push(kind_char(*k)); },
+        SeqCount(ks) => { let n = rng.below(ks.len() + 1); for k in &ks[..n] { out.push(kind_char(*k)); } }
+        Pred(_) => out.push(*rng.pick(&["a", "b", "c", "d"])),
+        Left(a, b) | Right(a, b) | Both(a, b) => { derive(a, rng, out, d); derive(b, rng, out, d); }
+        Center(a, b, c) => { derive(a, rng, out, d); derive(b, rng, out, d); derive(c, rng, out, d); }
+        Map(a) | Discard(a) | FilterWith(_, a) | Unfiltered(a) | Sub(a) | Spanned(a) | Text(a) | Raw(a)
+        | Unrecoverable(a) | Stabilize(a) | CtxPushed(_, a) | CtxPush(_, a) | CtxLocked(_, a) | UpTo(a, _) => derive(a, rng, out, d),
+        Either(a, b) => if rng.chance(1, 2) { derive(a, rng, out, d) } else { derive(b, rng, out, d) },
+        Maybe(a) | RequireIf(_, a) | Cond(_, a) => if rng.chance(2, 3) { derive(a, rng, out, d) },
+        Implies(a, b) | Antecedent(a, b) | Consequent(a, b) | CondImplies(a, _, b) => {
+            if rng.chance(2, 3) { derive(a, rng, out, d); derive(b, rng, out, d); }
+        }
+        Repeat(_, lo, hi, a) => {
+            let n = lo + rng.below(3);
+            let n = hi.map_or(n, |h| n.min(h + rng.below(2)));
+            for _ in 0..n { derive(a, rng, out, d); }
+        }
+        RepeatUntil(_, lo, _, st, a) => { for _ in 0..lo + rng.below(3) { derive(a, rng, out, d); } if rng.chance(1, 2) { derive(st, rng, out, d); } }
+        Intersperse(_, lo, _, a, s) => {
+            let n = lo + rng.below(3);
+            for i in 0..n { if i > 0 { derive(s, rng, out, d); } derive(a, rng, out, d); }
+            if rng.chance(1, 4) { derive(s, rng, out, d); }
+        }
+        IntersperseUntil(_, lo, _, st, a, s) => {
+            let n = lo + rng.below(3);
+            for i in 0..n { if i > 0 { derive(s, rng, out, d); } derive(a, rng, out, d); }
+            if rng.chance(1, 2) { derive(st, rng, out, d); }
+        }
+        IntersperseDefault(lo, _, a, k) => {
+            let n = lo + rng.below(3);
+            for i in 0..n { if i > 0 { out.push(kind_char(*k)); } derive(a, rng, out, d); }
+            if rng.chance(1, 4) { out.push(kind_char(*k)); }
+        }
+        Recover(_, a, r) => {
+            derive(a, rng, out, d);
+            if rng.chance(1, 2) {
+                out.push(match r { Rec::Before(k) | Rec::After(k) => kind_char(*k), Rec::BeforeAny(ks) | Rec::AfterAny(ks) => pick(rng, ks) });
+            }
+        }
+        Bracket(_, o, a, c, _) => {
+            let i = rng.below(o.len().max(1));
+            out.push(kind_char(*o.get(i).unwrap_or(&8)));
+            derive(a, rng, out, d);
+            out.push(kind_char(*c.get(i).unwrap_or(&9)));
+        }
+        List(_, _, _, a, s, ab) => {
+            let n = rng.below(4);
+            for i in 0..n { if i > 0 { out.push(kind_char(*s)); } derive(a, rng, out, d); }
+            if n > 0 && rng.chance(1, 3) { out.push(kind_char(*s)); }
+            if rng.chance(1, 3) { out.push(pick(rng, ab)); }
+        }
+    }
+}
+
+/// Derive a text from the grammar, then (often) disturb it: drop / insert / swap a
+/// token, sprinkle filtered tokens and the occasional rejected character.
+pub fn derived_text(g: &G, rng: &mut Rng) -> String {
+    let mut toks: Vec<&'static str> = Vec::new();
+    derive(g, rng, &mut toks, 0);
+    if toks.len() > 14 { toks.truncate(14); }
+    let noise = ["a", "b", "c", "d", ",", ";", "]", ")", "[", "(", "#", " "];
+    for _ in 0..rng.below(3) {
+        match rng.below(4) {
+            0 if !toks.is_empty() => { let i = rng.below(toks.len()); let _ = toks.remove(i); }
+            1 => { let i = rng.below(toks.len() + 1); toks.insert(i, *rng.pick(&noise)); }
+            2 if toks.len() > 1 => { let i = rng.below(toks.len() - 1); toks.swap(i, i + 1); }
+            _ => {}
+        }
+    }
+    let mut s = String::new();
+    for t in toks {
+        if rng.chance(1, 4) { s.push(' '); }
+        s.push_str(t);
+    }
+    if rng.chance(1, 4) { s.push(' '); }
+    s
+}
+
 fn mk(text: String, rng: &mut Rng, g: G) -> Case {
+    // two thirds of the texts are derived from the grammar itself
+    let text = if rng.chance(2, 3) { derived_text(&g, rng) } else { text };
     Case {
         text,
         le: LineEnding::Lf,
@@ -470,6 +568,56 @@ pub fn family(out: &mut Out, family: &str, tier: &Tier, rng: &mut Rng) {
                 }
             }
         }
+    }
+    // exhaustive small-scope parts (deterministic detection of small witnesses)
+    let fixed = |text: &String, g: &G, sink: bool, filter: Option<u32>, inv: usize| Case {
+        text: text.clone(), le: LineEnding::Lf, tab: 4, sc: 1, filter, sink, nctx: 0, invocations: inv, g: g.clone(),
+    };
+    if family == "bracket" {
+        let texts = all_texts_up_to(&['(', ')', '[', ']', 'a'], if tier.thorough { 5 } else { 4 });
+        let gs = vec![
+            G::Bracket(2, vec![6, 8], Box::new(G::Probe(1)), vec![7, 9], vec![]),
+            G::Bracket(3, vec![8, 6], Box::new(G::Right(Box::new(G::Probe(1)), Box::new(G::Repeat(0, 0, None, Box::new(G::Any(vec![0, 6, 7, 8, 9])))))), vec![9, 7], vec![]),
+            G::Bracket(0, vec![6], Box::new(G::Probe(1)), vec![7], vec![8]),
+            G::Bracket(2, vec![6, 8, 10], Box::new(G::Probe(1)), vec![7, 9, 11], vec![0]),
+        ];
+        for g in &gs { for t in &texts { emit(out, family, &fixed(t, g, true, Some(1), 1)); } }
+    }
+    if family == "list" {
+        let texts = all_texts_up_to(&['a', 'b', ',', ';', ']'], if tier.thorough { 5 } else { 4 });
+        let gs = vec![
+            G::List(0, 0, None, Box::new(G::One(0)), 4, vec![9]),
+            G::List(3, 1, Some(2), Box::new(G::One(0)), 4, vec![5, 9]),
+            G::List(1, 0, Some(2), Box::new(G::Seq(vec![0, 1])), 4, vec![9]),
+            G::List(2, 0, None, Box::new(G::List(3, 1, None, Box::new(G::One(0)), 4, vec![5, 9])), 5, vec![9]),
+        ];
+        for g in &gs { for t in &texts { for sink in [true, false] { emit(out, family, &fixed(t, g, sink, Some(1), 1)); } } }
+    }
+    if family == "recover" {
+        let texts = all_texts_up_to(&['a', 'b', ',', ';'], if tier.thorough { 5 } else { 4 });
+        let gs = vec![
+            G::Recover(0, Box::new(G::One(0)), Rec::Before(5)),
+            G::Recover(1, Box::new(G::One(0)), Rec::After(5)),
+            G::Recover(2, Box::new(G::Seq(vec![0, 1])), Rec::AfterAny(vec![4, 5])),
+            G::Recover(3, Box::new(G::One(0)), Rec::BeforeAny(vec![4, 5])),
+        ];
+        for g in &gs { for t in &texts { for inv in [1usize, 3] { emit(out, family, &fixed(t, g, true, Some(1), inv)); } } }
+    }
+    if family == "rep" {
+        let texts = all_texts_up_to(&['a', 'b', ',', ';'], if tier.thorough { 5 } else { 4 });
+        let item = || Box::new(G::One(0));
+        let gs = vec![
+            G::Repeat(0, 1, Some(2), item()),
+            G::Intersperse(0, 0, Some(2), item(), Box::new(G::One(4))),
+            G::RepeatUntil(0, 0, Some(1), Box::new(G::One(5)), item()),
+            G::RepeatUntil(1, 2, Some(2), Box::new(G::One(5)), item()),
+            G::IntersperseUntil(0, 1, None, Box::new(G::One(5)), item(), Box::new(G::One(4))),
+            G::IntersperseDefault(1, Some(3), item(), 4),
+        ];
+        for g in &gs { for t in &texts {
+            let g2 = G::Both(Box::new(g.clone()), Box::new(G::Maybe(Box::new(G::Any(vec![0, 1, 4, 5])))));
+            emit(out, family, &fixed(t, &g2, false, Some(1), 1));
+        } }
     }
     for i in 0..n {
         let c = match family {
